@@ -39,11 +39,12 @@ def finish(d, kind, value=None, exc=None):
                     pass
                 return True
             return False
-        try:
-            if not d.set_running_or_notify_cancel():
-                return False  # was cancelled: waiters are notified now
-        except RuntimeError:
-            return False  # already running / finished / notified
+        if not d.running():
+            try:
+                if not d.set_running_or_notify_cancel():
+                    return False  # was cancelled: waiters are notified now
+            except RuntimeError:
+                return False  # already finished / notified
         if kind == "value":
             d.set_result(value)
         else:
